@@ -24,6 +24,34 @@ for i in ids:
     else:
         out.append("### %s — (notes not written yet)\n\n" % i)
 out.append("---------------------------------------------------------------------------------------------\n\n")
-out.append(open(os.path.join(ROOT, "design/tail.md")).read())
+def seed_table():
+    rows = ["| seed | what the change does (first line of the author's note) | outcome against the check |", "|---|---|---|"]
+    sd = os.path.join(ROOT, "seeded")
+    missed = 0
+    names = sorted(os.listdir(sd)) if os.path.isdir(sd) else []
+    for n in names:
+        mp = os.path.join(sd, n, "meta.json")
+        if not os.path.exists(mp):
+            continue
+        m = json.load(open(mp))
+        what = " ".join([ln.strip() for ln in m.get("breaks_and_needs", "").split("\n") if ln.strip()][:3])
+        what = what.replace("|", "/")
+        if len(what) > 330:
+            what = what[:327] + "..."
+        caught = m.get("caught_by", "").replace("|", "/")
+        st = m.get("strengthening")
+        if st:
+            missed += 1
+            caught += " **Strengthening:** " + st.replace("|", "/")
+        rows.append("| `%s` | %s | %s |" % (n, what, caught))
+    head = ("%d seeded changes are kept (two per property, from 20 fresh sub-agents; each confirmed by `lib/seedconfirm.sh`: the "
+            "repository builds and its tests pass with the patch, the author's demonstration fails with it and passes without it). "
+            "%d of them were NOT caught by the first version of the check they target (the check exited 0, or died without a "
+            "failing input); in every such case the generator / oracle of that check was strengthened - never loosened - until the "
+            "change is reported with a failing input, and the unchanged tree still exits 0. `lib/seedrun.sh Cxx seeded/<id>/patch.diff` "
+            "re-runs one against a scratch copy of /repo.\n\n" % (len(rows) - 2, missed))
+    return head + "\n".join(rows) + "\n"
+
+out.append(open(os.path.join(ROOT, "design/tail.md")).read().replace("SEEDED_TABLE_PLACEHOLDER", seed_table()))
 open(os.path.join(ROOT, "DESIGN.md"), "w").write("".join(out))
 print("DESIGN.md assembled")
